@@ -9,5 +9,12 @@ PROPS = {
     },
 }
 
+PROPS["C15"] = {
+    "level_text": "PlusCal models of the MPSC, SPSC and relaxed-MPSC queues with node identities are model-checked exhaustively (2-3 producers x 2 items, consumer interleaved at every atomic step: each item popped once, per-producer order, abstract-queue refinement); recorded executions of the real inline queue code under seeded controlled schedules are validated step by step against the models, and the call/return history is checked by a queue monitor (exactly-once, per-producer FIFO, real-time order for the strict MPSC queue, legality of every empty result).",
+    "mc": {"quick": ["mpsc_2p"], "thorough": ["mpsc_2p", "mpsc_3p"]},
+    "scenarios": {"quick": ["mpsc_2p"], "thorough": ["mpsc_2p", "mpsc_3p"]},
+    "seeds": {"quick": 60, "thorough": 1000},
+}
+
 ALL = ["C%02d" % i for i in range(1, 21)]
 NOT_CLAIMED = {p: "check not yet built in this revision of /verif (model-based check under construction; see DESIGN.md section 10)" for p in ALL if p not in PROPS}
